@@ -150,6 +150,29 @@ def shared_objects(ctx, b, tx, rng):
                 exp = [["before"], mid, mid, ["after"]]
                 return got == exp, {"format": fmt, "lines": lines, "parsed": got, "expected": exp, "doc": doc[-400:]}
             b.guard(("shared_nodes", fmt, tuple(lines)), twice, sample={"format": fmt, "lines": lines, "case": "two captions made of the same node objects"})
+        # captions shown at the same time: the formats that merge them (SRT, the legacy / single-position DFXP writers)
+        # keep their lines in caption order; the others keep one cue each, in order
+        for fmt, W in WRITERS.items():
+            if fmt == "microdvd" and any("|" in x for x in lines):
+                continue
+
+            def together(fmt=fmt, W=W, lines=lines):
+                texts3 = [[lines[0]], [lines[1], "middle"], ["last " + lines[0]]]
+                cs = CaptionSet({"en-US": CaptionList([Caption(1000000, 2000000, [T("before")])] +
+                                                      [Caption(3000000, 4000000, node_lists(tl, "plain")) for tl in texts3] +
+                                                      [Caption(5000000, 6000000, [T("after")])])})
+                doc = _WRITER_OBJECTS.setdefault(fmt, W()).write(cs)
+                try:
+                    cues = parse(fmt, doc)
+                except parsers.FormatError as e:
+                    return False, {"format": fmt, "not_conformant": str(e), "doc": doc[-500:]}
+                f = edges if fmt in EXACT else norm
+                got = [[f(x) for x in cue if f(x)] for cue in cues]
+                mids = [[f(x) for x in tl if f(x)] for tl in texts3]
+                merged = fmt in ("srt", "legacy_dfxp", "single_dfxp")
+                exp = [["before"]] + ([sum(mids, [])] if merged else mids) + [["after"]]
+                return got == exp, {"format": fmt, "parsed": got, "expected": exp, "doc": doc[-400:]}
+            b.guard(("simultaneous", fmt, tuple(lines)), together, sample={"format": fmt, "lines": lines, "case": "three captions with the same times"})
         for fmt in ("sami", "dfxp", "legacy_dfxp", "single_dfxp"):
             def two_langs(fmt=fmt, lines=lines):
                 caps = CaptionList([Caption(1000000, 2000000, [T("before")]), Caption(3000000, 4000000, node_lists(lines, "plain"))])
